@@ -137,6 +137,10 @@ def histories(tier):
     return n, fails
 
 
+class NeverStops(Exception):
+    pass
+
+
 def train_runs():
     """bounded: real ml.train on a one-parameter model; the patience conditions must run >= 1 epoch, stop on a plateau and
     hand back the best model; EpochStop(n) runs exactly n epochs"""
@@ -169,8 +173,24 @@ def train_runs():
                 sc = getattr(ml, cls)(**kw)
             m0 = Tiny(w0)
             val = (X, X) if cls == "ValLoss" else (None, None)
-            best, _, tl, vl = ml.train(X, X, map_and_loss, m0, random.PRNGKey(0), sc, 2, optax.sgd(0.25), val[0], val[1])
+            # the loss reaches its plateau after 3 epochs: a correct condition stops within patience + 4 epochs; the
+            # harness caps the run so that a condition that never fires is reported instead of looping forever
+            calls = [0]
+            orig_stop = sc.stop
+
+            def capped(*a, _orig=orig_stop, _calls=calls, **k):
+                _calls[0] += 1
+                if _calls[0] > 20:
+                    raise NeverStops()
+                return _orig(*a, **k)
+            sc.stop = capped
             n += 1
+            try:
+                best, _, tl, vl = ml.train(X, X, map_and_loss, m0, random.PRNGKey(0), sc, 2, optax.sgd(0.25), val[0], val[1])
+            except NeverStops:
+                fails.append({"name": f"train/{cls}{kw}", "detail": f"training with {cls}{kw} on a loss that plateaus after 3 epochs did not stop within 20 epochs",
+                              "request": {"cls": "train"}})
+                continue
             wb = float(best.w)
             if cls == "EpochStop":
                 ok = abs(wb - (w0 - 0.25 * 2 * 3)) < 1e-4 or abs(wb) <= 0.5 + 1e-6
